@@ -14,6 +14,32 @@ type summaryFn func(fr *frame, fn *ssa.Function, args []value) (value, bool)
 
 var summaries = map[string]summaryFn{
 	"roll-contract": rollContract,
+	"roll-log":      rollLog,
+}
+
+// rollLog: for provenance checks.  Logs which generator a die is drawn from
+// and returns a low face (1 or 2, alternating) without forking on values.
+func rollLog(fr *frame, fn *ssa.Function, args []value) (value, bool) {
+	px := fr.i.px
+	mode, ok := args[2].(int)
+	if !ok || mode != 0 {
+		return nil, false
+	}
+	n, ok := args[1].(int)
+	if !ok || n < 1 {
+		return nil, false
+	}
+	src := args[0].(*value)
+	t := px.newSym("draw", fmt.Sprintf("draw%d", px.nDraw), 64)
+	face := 1 + px.nDraw%2
+	if face > n {
+		face = n
+	}
+	px.nDraw++
+	px.drawLog = append(px.drawLog, drawRec{recv: src, sym: t})
+	// pin the generator output so that native replay rolls the same face
+	px.assume(px.ar.Eq(t, px.ar.Const(64, uint64(face-1))))
+	return face, true
 }
 
 // rollContract is the contract of Roll(src, n, mode) established by C05:
